@@ -508,3 +508,178 @@ Proof.
     rewrite N.add_0_l, drop_all by lia. apply app_nil_r.
   - rewrite aget_upd_neq by auto. exact Ej.
 Qed.
+
+(* ---- wave 6: whole-buffer expressions (assignment from a temporary, std::swap, container erase) *)
+Lemma a_live_lt A i : a_live A i = true -> (i < length A)%nat.
+Proof. unfold a_live. destruct (nth_error A i) eqn:E; [intros _; eapply nth_some_lt; eauto|discriminate]. Qed.
+Lemma a_raw_lt A i : a_raw A i = true -> (i < length A)%nat.
+Proof. unfold a_raw. destruct (nth_error A i) eqn:E; [intros _; eapply nth_some_lt; eauto|discriminate]. Qed.
+Lemma a_live_upd_neq A i j x : i <> j -> a_live (upd A i x) j = a_live A j.
+Proof. intros H. unfold a_live. rewrite nth_upd_neq by auto. reflexivity. Qed.
+Lemma a_live_upd_some A i x : (i < length A)%nat -> a_live (upd A i (Some x)) i = true.
+Proof. intros H. unfold a_live. rewrite nth_upd_eq by auto. reflexivity. Qed.
+Lemma a_raw_upd_neq A i j x : i <> j -> a_raw (upd A i x) j = a_raw A j.
+Proof. intros H. unfold a_raw. rewrite nth_upd_neq by auto. reflexivity. Qed.
+Lemma upd_raw_same (A : astate) t : a_raw A t = true -> upd A t None = A.
+Proof.
+  unfold a_raw. intros H. apply upd_same. destruct (nth_error A t) as [[x|]|]; try discriminate. reflexivity.
+Qed.
+
+Lemma arun_assign_temp A t i j :
+  a_raw A t = true -> a_live A i = true -> a_live A j = true -> t <> i -> t <> j ->
+  arun A (assign_temp_ops t i j) = upd A i (Some (aget A j)).
+Proof.
+  intros Rt Li Lj Hti Htj. pose proof (a_raw_lt _ _ Rt) as Lt.
+  unfold assign_temp_ops. cbn [arun]. unfold astep at 3. rewrite Rt, Lj. cbn [andb fst].
+  unfold astep at 2. rewrite a_live_upd_neq by auto. rewrite Li, a_live_upd_some by auto. cbn [andb fst].
+  rewrite aget_upd_eq by auto.
+  unfold astep. rewrite a_live_upd_neq by auto. rewrite a_live_upd_some by auto. cbn [fst].
+  rewrite (Prims.upd_comm A t i) by auto. rewrite upd_upd.
+  apply upd_raw_same. rewrite a_raw_upd_neq by auto. exact Rt.
+Qed.
+
+Lemma arun_swap A t a b :
+  a_raw A t = true -> a_live A a = true -> a_live A b = true -> t <> a -> t <> b ->
+  arun A (swap_ops t a b) = upd (upd A a (Some (aget A b))) b (Some (aget A a)).
+Proof.
+  intros Rt La Lb Hta Htb. pose proof (a_raw_lt _ _ Rt) as Lt. pose proof (a_live_lt _ _ La) as Lla.
+  unfold swap_ops. cbn [arun]. unfold astep at 4. rewrite Rt, La. cbn [andb fst].
+  set (A1 := upd A t (Some (aget A a))).
+  assert (L1a : a_live A1 a = true) by (unfold A1; rewrite a_live_upd_neq by auto; auto).
+  assert (L1b : a_live A1 b = true) by (unfold A1; rewrite a_live_upd_neq by auto; auto).
+  unfold astep at 3. rewrite L1a, L1b. cbn [andb fst].
+  assert (G1b : aget A1 b = aget A b) by (unfold A1; apply aget_upd_neq; auto). rewrite G1b.
+  set (A2 := upd A1 a (Some (aget A b))).
+  assert (Len1 : length A1 = length A) by (unfold A1; apply upd_length).
+  assert (L2b : a_live A2 b = true).
+  { unfold A2. destruct (Nat.eq_dec a b) as [<-|Hn]; [apply a_live_upd_some; lia|rewrite a_live_upd_neq by auto; auto]. }
+  assert (L2t : a_live A2 t = true).
+  { unfold A2. rewrite a_live_upd_neq by auto. unfold A1. apply a_live_upd_some; auto. }
+  unfold astep at 2. rewrite L2b, L2t. cbn [andb fst].
+  assert (G2t : aget A2 t = aget A a).
+  { unfold A2. rewrite aget_upd_neq by auto. unfold A1. apply aget_upd_eq; auto. }
+  rewrite G2t.
+  set (A3 := upd A2 b (Some (aget A a))).
+  assert (L3t : a_live A3 t = true) by (unfold A3; rewrite a_live_upd_neq by auto; auto).
+  unfold astep. rewrite L3t. cbn [fst].
+  unfold A3, A2, A1.
+  rewrite (Prims.upd_comm A t a) by auto. rewrite (Prims.upd_comm (upd A a _) t b) by auto. rewrite upd_upd.
+  apply upd_raw_same. rewrite !a_raw_upd_neq by auto. exact Rt.
+Qed.
+
+Lemma expr_run fresh s ops :
+  inv s -> Forall op_ok ops ->
+  exists s', crun fresh s ops = Ok s' /\ inv s' /\ abs s' = arun (abs s) ops /\
+             (forall q, cquery s' q = Ok (aquery (arun (abs s) ops) q)).
+Proof.
+  intros I H. destruct (run_correct fresh ops s I H) as (s' & E & I' & A').
+  exists s'. split; [exact E|]. split; [exact I'|]. split; [exact A'|].
+  intros q. rewrite (query_correct s' q I'), A'. reflexivity.
+Qed.
+
+Lemma assign_temp_full :
+  forall fresh s t i j, inv s -> is_raw s t = true -> is_live s i = true -> is_live s j = true ->
+  t <> i -> t <> j ->
+  exists s', crun fresh s (assign_temp_ops t i j) = Ok s' /\ inv s' /\
+             abs s' = upd (abs s) i (Some (aget (abs s) j)).
+Proof.
+  intros fresh s t i j I Rt Li Lj Hi Hj.
+  destruct (expr_run fresh s (assign_temp_ops t i j) I) as (s' & E & I' & A' & _).
+  { repeat constructor. }
+  exists s'. split; [exact E|]. split; [exact I'|]. rewrite A'.
+  apply arun_assign_temp; rewrite ?a_raw_abs, ?a_live_abs; auto.
+Qed.
+
+Lemma swap_full :
+  forall fresh s t a b, inv s -> is_raw s t = true -> is_live s a = true -> is_live s b = true ->
+  t <> a -> t <> b ->
+  exists s', crun fresh s (swap_ops t a b) = Ok s' /\ inv s' /\
+             abs s' = upd (upd (abs s) a (Some (aget (abs s) b))) b (Some (aget (abs s) a)).
+Proof.
+  intros fresh s t a b I Rt La Lb Ha Hb.
+  destruct (expr_run fresh s (swap_ops t a b) I) as (s' & E & I' & A' & _).
+  { repeat constructor. }
+  exists s'. split; [exact E|]. split; [exact I'|]. rewrite A'.
+  apply arun_swap; rewrite ?a_raw_abs, ?a_live_abs; auto.
+Qed.
+
+(* the write that exposed seeded change C02f-2: after x = T(y) (or swap), writing x in place leaves y alone *)
+Lemma assign_temp_then_write_full :
+  forall fresh s t i j ch v, inv s -> is_raw s t = true -> is_live s i = true -> is_live s j = true ->
+  t <> i -> t <> j -> i <> j ->
+  exists s', crun fresh s (assign_temp_ops t i j ++ [OSetChannel i ch v]) = Ok s' /\ inv s' /\
+             nth_error (abs s') j = nth_error (abs s) j /\
+             (forall q, (forall x, In x (query_slots q) -> x <> i /\ x <> t) -> cquery s' q = cquery s q).
+Proof.
+  intros fresh s t i j ch v I Rt Li Lj Hi Hj Hij.
+  destruct (expr_run fresh s (assign_temp_ops t i j ++ [OSetChannel i ch v]) I) as (s' & E & I' & A' & Q').
+  { repeat constructor. }
+  exists s'. split; [exact E|]. split; [exact I'|].
+  assert (AR : arun (abs s) (assign_temp_ops t i j ++ [OSetChannel i ch v]) =
+               fst (astep (upd (abs s) i (Some (aget (abs s) j))) (OSetChannel i ch v))).
+  { rewrite arun_app. rewrite arun_assign_temp by (rewrite ?a_raw_abs, ?a_live_abs; auto). reflexivity. }
+  assert (FR : forall x, x <> i -> nth_error (arun (abs s) (assign_temp_ops t i j ++ [OSetChannel i ch v])) x =
+                                   nth_error (abs s) x).
+  { intros x Hx. rewrite AR, astep_frame by (cbn; auto). apply nth_upd_neq. auto. }
+  split.
+  - rewrite A'. apply FR. auto.
+  - intros q Hq. rewrite Q', (query_correct s q I). f_equal. apply aquery_ext.
+    intros x Hx. apply FR. apply (Hq x Hx).
+Qed.
+
+(* container.erase: shifting by assignment *)
+Lemma live_entry A x : a_live A x = true -> nth_error A x = Some (Some (aget A x)).
+Proof. unfold a_live, aget. destruct (nth_error A x) as [[b|]|]; try discriminate. reflexivity. Qed.
+
+Lemma arun_shift base : forall c k A,
+  (forall m, (k <= m <= k + c)%nat -> a_live A (base + m) = true) ->
+  forall x, nth_error (arun A (map (fun m => OAssign (base + m) (base + m + 1)) (seq k c))) x =
+            if (Nat.leb (base + k) x && Nat.ltb x (base + k + c))%bool then nth_error A (x + 1) else nth_error A x.
+Proof.
+  induction c as [|c IH]; intros k A HL x.
+  - cbn [seq map arun]. replace (base + k + 0)%nat with (base + k)%nat by lia.
+    destruct (Nat.leb_spec (base + k) x); destruct (Nat.ltb_spec x (base + k)); cbn; auto; lia.
+  - cbn [seq map arun].
+    assert (Lk : a_live A (base + k) = true) by (apply HL; lia).
+    assert (Lk1 : a_live A (base + k + 1) = true) by (replace (base + k + 1)%nat with (base + (k + 1))%nat by lia; apply HL; lia).
+    unfold astep at 1. rewrite Lk, Lk1. cbn [andb fst].
+    set (A1 := upd A (base + k) (Some (aget A (base + k + 1)))).
+    rewrite (IH (S k) A1).
+    2:{ intros m Hm. unfold A1. rewrite a_live_upd_neq by lia. apply HL. lia. }
+    replace (base + S k + c)%nat with (base + k + S c)%nat by lia.
+    destruct (Nat.leb_spec (base + S k) x); destruct (Nat.ltb_spec x (base + k + S c));
+      destruct (Nat.leb_spec (base + k) x); cbn [andb]; try lia;
+      try (unfold A1; rewrite nth_upd_neq by lia; reflexivity).
+    assert (x = base + k)%nat by lia. subst x. unfold A1.
+    rewrite nth_upd_eq by (apply a_live_lt; auto). symmetry. apply live_entry. exact Lk1.
+Qed.
+
+Lemma erase_full :
+  forall fresh s base k n, inv s -> (k < n)%nat ->
+  (forall m, (m < n)%nat -> is_live s (base + m) = true) ->
+  exists s', crun fresh s (erase_ops base k n) = Ok s' /\ inv s' /\
+    (forall x, nth_error (abs s') x =
+       if Nat.eqb x (base + n - 1) then Some None
+       else if (Nat.leb (base + k) x && Nat.ltb x (base + n - 1))%bool then nth_error (abs s) (x + 1)
+       else nth_error (abs s) x).
+Proof.
+  intros fresh s base k n I Hk HL.
+  destruct (expr_run fresh s (erase_ops base k n) I) as (s' & E & I' & A' & _).
+  { unfold erase_ops. apply Forall_app. split; [|repeat constructor].
+    apply Forall_forall. intros o Ho. apply in_map_iff in Ho as (m & <- & _). exact Logic.I. }
+  exists s'. split; [exact E|]. split; [exact I'|]. intros x. rewrite A'. unfold erase_ops. rewrite arun_app.
+  set (R := arun (abs s) (map (fun m => OAssign (base + m) (base + m + 1)) (seq k (n - 1 - k)))).
+  assert (HR : forall y, nth_error R y =
+             if (Nat.leb (base + k) y && Nat.ltb y (base + k + (n - 1 - k)))%bool then nth_error (abs s) (y + 1)
+             else nth_error (abs s) y).
+  { intros y. unfold R. apply arun_shift. intros m Hm. rewrite a_live_abs. apply HL. lia. }
+  replace (base + k + (n - 1 - k))%nat with (base + n - 1)%nat in HR by lia.
+  assert (Llast : a_live R (base + n - 1) = true).
+  { unfold a_live. rewrite HR. destruct (Nat.ltb_spec (base + n - 1) (base + n - 1)); [lia|]. rewrite andb_false_r.
+    replace (base + n - 1)%nat with (base + (n - 1))%nat by lia.
+    pose proof (HL (n - 1)%nat ltac:(lia)) as L. rewrite <- a_live_abs in L. unfold a_live in L. exact L. }
+  cbn [arun]. unfold astep. rewrite Llast. cbn [fst].
+  destruct (Nat.eqb_spec x (base + n - 1)) as [->|Hne].
+  - apply nth_upd_eq. apply a_live_lt. exact Llast.
+  - rewrite nth_upd_neq by auto. apply HR.
+Qed.
